@@ -11,7 +11,9 @@
 //!                 the client: ops 20 CONNECT (keep-alive cfg[0]), 21 PINGREQ, 22 byte C0, 23 byte 00,
 //!                 24 first five bytes of CONNECT, 25 the rest of CONNECT, 26 byte 0x82 (first byte of a
 //!                 SUBSCRIBE), 27 byte 0x05 (its remaining length: the header is complete), 3 close
-//!   kind 13 / 15  v3 / v5 client with keep-alive cfg[0] s; the harness is the broker: ops 30 CONNACK, 3 close
+//!   kind 13 / 15  v3 / v5 client with keep-alive cfg[0] s; the harness is the broker: ops 30 CONNACK, 3 close,
+//!                 33 CONNACK with Receive Maximum 1 (v3: plain), 31 the client application publishes one QoS 1
+//!                 message (once per scenario), 32 the broker writes PUBACK(1)
 //!   observation per second: closed (0/1), then for every packet received so far its first byte
 //!   (32 CONNACK, 208 PINGRESP, 16 CONNECT, 192 PINGREQ, 224 DISCONNECT followed by its reason code)
 //!
@@ -98,6 +100,7 @@ async fn run_mqtt_case(c: Fields, start: Instant) -> Fields {
     let shared: SharedCfg = SharedCfg::new("RT").add(mcfg).add(iocfg).into();
 
     let panicked = Rc::new(std::cell::Cell::new(false));
+    let pubgate0: crate::rt::Gates<u64> = crate::rt::Gates::new();
     // like conn::start_server, with the server task's panics contained (observation 9999)
     macro_rules! server {
         ($srv:expr) => {{
@@ -133,6 +136,7 @@ async fn run_mqtt_case(c: Fields, start: Instant) -> Fields {
         peer.remote_buffer_cap(1 << 20);
         let end = RefCell::new(Some(end));
         let cfg2 = shared.clone();
+        let pubgate = pubgate0.clone();
         macro_rules! client {
             ($v:ident) => {{
                 let connector = $v::client::MqttConnector::<String, _>::new().connector(fn_service(
@@ -148,6 +152,16 @@ async fn run_mqtt_case(c: Fields, start: Instant) -> Fields {
                         .client_id("c")
                         .keep_alive(Seconds(ka as u16));
                     if let Ok(client) = svc.call(connect).await {
+                        let sink = client.sink();
+                        let gate = pubgate.clone();
+                        ntex::rt::spawn(async move {
+                            // op 31: the application publishes one QoS 1 message (the result is not awaited for)
+                            gate.wait(1).await;
+                            let _ = sink
+                                .publish(ntex::util::ByteString::from_static("a"))
+                                .send_at_least_once(ntex::util::Bytes::from_static(b"x"))
+                                .await;
+                        });
                         client.start_default().await;
                     }
                 });
@@ -181,6 +195,15 @@ async fn run_mqtt_case(c: Fields, start: Instant) -> Fields {
                 Some(26) => Some(vec![0x82]),
                 Some(27) => Some(vec![0x05]),
                 Some(30) => Some(if v5k { vec![0x20, 3, 0, 0, 0] } else { vec![0x20, 2, 0, 0] }),
+                // CONNACK announcing Receive Maximum 1 (v3: plain CONNACK)
+                Some(33) => Some(if v5k { vec![0x20, 6, 0, 0, 3, 0x21, 0, 1] } else { vec![0x20, 2, 0, 0] }),
+                // the client application publishes one QoS 1 message
+                Some(31) => {
+                    pubgate0.open(1, 0);
+                    None
+                }
+                // the broker acknowledges it
+                Some(32) => Some(vec![0x40, 2, 0, 1]),
                 Some(3) => {
                     drop(peer.take());
                     None
